@@ -70,7 +70,8 @@ def gen_cases(tier, seed):
         deref = pol == "none" and r.random() < 0.2
         if deref:
             spec = [e for e in spec if e["k"] != "l" or (e["k"] == "l" and not e["target"].startswith("no/") and not e["target"].startswith("@"))]
-        yield {"deref": deref, "spec": spec, "driver": driver, "updater": upd, "mode": mode, "bs": bs, "workers": r.choice([1, 2, 4, 8]), "policy": pol, "rules": rules,
+        onecpu = r.random() < 0.08
+        yield {"onecpu": onecpu, "deref": deref, "spec": spec, "driver": driver, "updater": upd, "mode": mode, "bs": bs, "workers": 0 if onecpu or r.random() < 0.05 else r.choice([1, 2, 4, 8]), "policy": pol, "rules": rules,
                "plan": sch, "fs": "ext4"}
 
 
@@ -138,6 +139,8 @@ def run_case(case):
         plan = dict(case["plan"])
         plan.update({"log_mode": "full", "marker_fd": 999, "driver": case["driver"], "rules": rules, "pct_horizon": 400, "max_steps": 2000000})
         argv = [PROBE_BIN["probe_xcp"], case["driver"], case["updater"], case["mode"], str(case["workers"]), str(case["bs"])] + (["--dereference"] if case.get("deref") else []) + ["--", "src", "dst"]
+        if case.get("onecpu"):
+            argv = ["taskset", "-c", "2"] + argv      # a process that may use a single CPU (container / affinity mask); workers = 0 then means 'one'
         run = core.run_supervised(sb, argv, plan)
         if run.verdict != "exited":
             res["inconc"].append("run-" + run.verdict)
